@@ -305,6 +305,11 @@ C16_create(a, req, it, r, b) ==
     (it.op \in {"Create", "Register"} /\ Succ(r)) =>
         \A i \in DOMAIN it.p.attrs : AttrSupported(it.p.attrs[i].name, req.ver)
 
+\* an operation the server advertises under this version is never refused as unavailable under it
+C16_avail(req, it, r) ==
+    (it.op \in Range(QueryOps(req.ver)) /\ req.ver \in SupportedVersions) =>
+        ~(r.reason = "OperationNotSupported" /\ r.mc = "OpVersion")
+
 C16_query(req, it, r) ==
     (it.op = "Query" /\ Succ(r)) => \A i \in DOMAIN r.names : r.names[i] \in ServerOps => req.ver >= MinVersion(r.names[i])
 
@@ -324,7 +329,7 @@ C05_attrs(a, req, it, r) ==
 ItemClauses == {"C03_effect", "C03_denial", "C03_owner", "C04_moves", "C04_initial", "C04_use", "C04_destroy",
                 "C07_fresh", "C07_reported", "C07_dead", "C07_frame", "C08_failclean", "C08_frame",
                 "C13_item", "C14_order", "C14_set", "C14_page", "C14_set_groups", "C14_page_groups", "C15_fixed", "C15_fail", "C15_exact",
-                "C16_op", "C16_attrs", "C16_create", "C16_query", "C05_attrs"}
+                "C16_op", "C16_attrs", "C16_create", "C16_query", "C16_avail", "C05_attrs"}
 
 Holds(c, a, req, it, r, b, g) ==
     CASE c = "C03_effect" -> C03_effect(a, req, it, r, b)
@@ -353,6 +358,7 @@ Holds(c, a, req, it, r, b, g) ==
       [] c = "C16_attrs" -> C16_attrs(req, it, r)
       [] c = "C16_create" -> C16_create(a, req, it, r, b)
       [] c = "C16_query" -> C16_query(req, it, r)
+      [] c = "C16_avail" -> C16_avail(req, it, r)
       [] c = "C05_attrs" -> C05_attrs(a, req, it, r)
 
 FailedClauses(a, req, it, r, b, g) == {c \in ItemClauses : ~Holds(c, a, req, it, r, b, g)}
